@@ -70,6 +70,54 @@ def graph_refs(t):
     return refs, seen
 
 
+def strongly_reachable(roots, target):
+    """is `target` reachable from the program's tensors through strong references?  Follows instance dicts, containers,
+    bound methods and closure cells (e.g. the replay functions an UnView op keeps), but not function globals."""
+    import types
+
+    seen = set()
+    stack = list(roots)
+    tid = id(target)
+    n = 0
+    while stack and n < 200000:
+        o = stack.pop()
+        if id(o) in seen:
+            continue
+        seen.add(id(o))
+        n += 1
+        if id(o) == tid:
+            del stack
+            return True
+        if isinstance(o, (str, bytes, int, float, bool, type(None), np.ndarray, weakref.ref, type)):
+            continue
+        if isinstance(o, dict):
+            stack.extend(o.values())
+        elif isinstance(o, (list, tuple, set, frozenset)):
+            stack.extend(o)
+        elif isinstance(o, types.MethodType):
+            stack.append(o.__self__)
+            stack.append(o.__func__)
+        elif isinstance(o, types.FunctionType):
+            if o.__closure__:
+                stack.extend(c.cell_contents for c in o.__closure__ if c is not None)
+            w = getattr(o, "__wrapped__", None)
+            if w is not None:
+                stack.append(w)
+            if o.__defaults__:
+                stack.extend(o.__defaults__)
+        else:
+            d = getattr(o, "__dict__", None)
+            if isinstance(d, dict):
+                stack.extend(d.values())
+            for slot in getattr(type(o), "__slots__", ()):
+                try:
+                    stack.append(getattr(o, slot))
+                except AttributeError:
+                    pass
+    del stack
+    return False
+
+
 def snap(impl):
     out = {}
     for n in impl.order:
@@ -155,7 +203,7 @@ class Exec:
                             self.failure = (i, st, "not_cleared", name, "creator=%s consumers=%d after backward" % (type(o._creator).__name__, len(o._ops)))
                             del o
                             return
-                    elif id(o) not in reach:
+                    elif id(o) not in reach and not strongly_reachable([impl.t[n] for n in impl.order], o):
                         self.failure = (i, st, "leak", type(o).__name__, "object of the graph survives backward() though the program holds no reference to it")
                         del o
                         return
